@@ -268,10 +268,13 @@ func checkC20(w *World, r *Report) {
 
 	// ---- timeout wiring
 	okWire := false
-	if np := w.FuncByName("taskctl", "NewPgidExecutor"); np != nil {
+	// the executor constructor: the function of package taskctl that builds the interpreter
+	if np := w.FuncByRole("taskctl", "NewPgidExecutor", func(f *ssa.Function) bool { return f.Parent() == nil && callsNamed(f, "interp.New") }); np != nil {
+		ktIdx := -1
 		for _, ci := range findCalls(np, func(_ string, c *ssa.CallCommon) bool { return c.StaticCallee() == mk }) {
-			if p, ok := w.Resolve(ci.Common().Args[0]).(*ssa.Parameter); ok && p.Name() == "killTimeout" {
+			if p, ok := w.Resolve(ci.Common().Args[0]).(*ssa.Parameter); ok && p.Parent() == np {
 				okWire = true
+				ktIdx = paramIdxOf(p)
 			}
 		}
 		// the handler is what the interpreter gets
@@ -285,10 +288,10 @@ func checkC20(w *World, r *Report) {
 		})
 		r.Check(okH, "only-executor.handler-installed", FuncName(np)+": interpreter uses the pgid exec handler", w.Pos(np.Pos()), "interp.ExecHandler(createExecHandler(killTimeout)) is passed to interp.New", "the interpreter of the pgid executor is not configured with the process-group exec handler: commands run through the default handler (no process group, no kill escalation)")
 		// every construction of the executor passes the runner's kill timeout
-		for _, fn := range w.ModFuncs {
-			for _, ci := range findCalls(fn, func(_ string, c *ssa.CallCommon) bool { return c.StaticCallee() == np }) {
-				a := ci.Common().Args
-				r.Check(strings.HasSuffix(w.AP(a[len(a)-1]), ".killTimeout"), "escalation.timeout-wired", FuncName(fn)+": NewPgidExecutor(…, kill timeout)", w.InstrPos(ci), "the runner's configured kill timeout is passed", "the executor is built with "+w.AP(a[len(a)-1])+" instead of the runner's kill timeout")
+		// (followed through wrappers that forward their own parameter)
+		if ktIdx >= 0 {
+			for _, l := range w.argOrigins(np, ktIdx, 0) {
+				r.Check(strings.HasSuffix(w.AP(l.v), ".killTimeout"), "escalation.timeout-wired", FuncName(l.fn)+": NewPgidExecutor(…, kill timeout)", w.InstrPos(l.in), "the runner's configured kill timeout is passed", "the executor is built with "+w.AP(l.v)+" instead of the runner's kill timeout")
 			}
 		}
 	}
